@@ -1,3 +1,155 @@
 package main
 
-type cgState struct{}
+import (
+	"go/types"
+	"sort"
+
+	"golang.org/x/tools/go/callgraph"
+	"golang.org/x/tools/go/callgraph/cha"
+	"golang.org/x/tools/go/callgraph/vta"
+	"golang.org/x/tools/go/ssa"
+	"golang.org/x/tools/go/ssa/ssautil"
+)
+
+// cgState caches the call-graph views of a Program.
+type cgState struct {
+	staticCallers map[*ssa.Function][]CallSite // callee -> static call sites in module functions
+	closureMakers map[*ssa.Function][]*ssa.MakeClosure
+	funcValueUses map[*ssa.Function][]ssa.Instruction // uses of a declared function as a value (not a call)
+	vta           *callgraph.Graph
+}
+
+func (p *Program) cgs() *cgState {
+	if p.cg == nil {
+		p.cg = &cgState{}
+	}
+	return p.cg
+}
+
+// StaticCallers returns every call/go/defer site in module source functions
+// whose statically resolved callee is fn (interface invokes are not included;
+// use ImplCallers for those). Cheap; available in both tiers.
+func (p *Program) StaticCallers(fn *ssa.Function) []CallSite {
+	st := p.cgs()
+	if st.staticCallers == nil {
+		st.staticCallers = map[*ssa.Function][]CallSite{}
+		st.closureMakers = map[*ssa.Function][]*ssa.MakeClosure{}
+		st.funcValueUses = map[*ssa.Function][]ssa.Instruction{}
+		for _, f := range p.AllFuncs {
+			for _, b := range f.Blocks {
+				for _, in := range b.Instrs {
+					switch x := in.(type) {
+					case ssa.CallInstruction:
+						c := CallSite{f, x}
+						if callee := c.Callee(); callee != nil {
+							st.staticCallers[callee] = append(st.staticCallers[callee], c)
+						}
+					case *ssa.MakeClosure:
+						if lf, ok := x.Fn.(*ssa.Function); ok {
+							st.closureMakers[lf] = append(st.closureMakers[lf], x)
+						}
+					}
+					// uses of a declared function as a first-class value
+					for _, op := range in.Operands(nil) {
+						if *op == nil {
+							continue
+						}
+						if fv, ok := (*op).(*ssa.Function); ok {
+							if ci, isCall := in.(ssa.CallInstruction); isCall && ci.Common().Value == ssa.Value(fv) {
+								continue
+							}
+							st.funcValueUses[fv] = append(st.funcValueUses[fv], in)
+						}
+					}
+				}
+			}
+		}
+	}
+	return st.staticCallers[fn]
+}
+
+// FuncValueUses returns the instructions that use the declared function fn as a
+// value (stored in a field, passed as an argument, bound as a method value)
+// rather than calling it directly.
+func (p *Program) FuncValueUses(fn *ssa.Function) []ssa.Instruction {
+	p.StaticCallers(fn)
+	return p.cgs().funcValueUses[fn]
+}
+
+// InvokeSites returns every interface-method invoke site in module source
+// functions whose method is named name and whose interface type is implemented
+// by recv (the concrete receiver type of a method): the sites that may dispatch
+// to recv's method.
+func (p *Program) InvokeSites(fn *ssa.Function) []CallSite {
+	recv := fn.Signature.Recv()
+	if recv == nil {
+		return nil
+	}
+	var out []CallSite
+	for _, f := range p.AllFuncs {
+		for _, c := range CallsIn(f, false) {
+			cc := c.Common()
+			if !cc.IsInvoke() || cc.Method.Name() != fn.Name() {
+				continue
+			}
+			it, ok := cc.Value.Type().Underlying().(*types.Interface)
+			if !ok {
+				continue
+			}
+			if types.Implements(recv.Type(), it) {
+				out = append(out, c)
+			}
+		}
+	}
+	return out
+}
+
+// VTA returns the VTA-refined call graph over the CHA graph of the whole
+// program (about 20 s and 4 GB on the pinned tree; use only when
+// p.Tier == "thorough").
+func (p *Program) VTA() *callgraph.Graph {
+	st := p.cgs()
+	if st.vta == nil {
+		all := ssautil.AllFunctions(p.SSA)
+		st.vta = vta.CallGraph(all, cha.CallGraph(p.SSA))
+	}
+	return st.vta
+}
+
+// VTACallers returns the call-graph predecessors of fn (module functions only),
+// sorted by key.
+func (p *Program) VTACallers(fn *ssa.Function) []*ssa.Function {
+	g := p.VTA()
+	n := g.Nodes[fn]
+	if n == nil {
+		return nil
+	}
+	seen := map[*ssa.Function]bool{}
+	var out []*ssa.Function
+	for _, e := range n.In {
+		c := e.Caller.Func
+		if c != nil && !seen[c] && (InModule(c) || c.Parent() != nil && InModule(TopFunc(c))) {
+			seen[c] = true
+			out = append(out, c)
+		}
+	}
+	sort.Slice(out, func(i, j int) bool { return FuncKey(out[i]) < FuncKey(out[j]) })
+	return out
+}
+
+// VTACallees returns the module functions an instruction may call according to VTA.
+func (p *Program) VTACallees(c CallSite) []*ssa.Function {
+	g := p.VTA()
+	n := g.Nodes[c.Fn]
+	if n == nil {
+		return nil
+	}
+	var out []*ssa.Function
+	for _, e := range n.Out {
+		if e.Site == c.Instr && e.Callee.Func != nil {
+			out = append(out, e.Callee.Func)
+		}
+	}
+	sort.Slice(out, func(i, j int) bool { return FuncKeyAny(out[i]) < FuncKeyAny(out[j]) })
+	return out
+}
